@@ -291,7 +291,7 @@ func (g *gen) c09Script(n int) string {
 				next += c.H
 			}
 		}
-		sc := g.r.Intn(11)
+		sc := g.r.Intn(12)
 		g.stats[fmt.Sprintf("c09.scenario%d", sc)]++
 		if sc == 9 {
 			// a late duplicate acknowledgement of the old connection is still parked when the
@@ -342,6 +342,10 @@ func (g *gen) c09Script(n int) string {
 			b.at(1, "read")
 			b.at(1, "end")
 			return b.String()
+		case 11: // the gateway disconnects while a heartbeat is still unanswered: the heartbeat of the old
+			// connection must end with it (no connection-state request for the old channel afterwards)
+			b.at(1, fmt.Sprintf("rx dreq %d", ch))
+			reconnect = true
 		case 10: // answered twice (the gateway also answers the resend, or repeats itself); the surplus
 			// answer finds no heartbeat waiting and must not count for the NEXT heartbeat, which the
 			// gateway leaves unanswered
